@@ -57,7 +57,7 @@ def check_property(prop, timeout=1200):
         if b.startswith('Closed under the global context'):
             if k < len(pa): assum[pa[k]] = []; k += 1
         elif b.startswith('Axioms:'):
-            names = re.findall(r'^([A-Za-z_][A-Za-z0-9_\.\']*)\s*:', b[len('Axioms:'):], re.M)
+            names = [ln.split()[0] for ln in b[len('Axioms:'):].split('\n') if ln and not ln[0].isspace()]
             if k < len(pa): assum[pa[k]] = sorted(set(names)); k += 1
     res['assumptions'] = assum
     exp_path = os.path.join(COQ, 'expected_assumptions', prop + '.txt')
